@@ -27,7 +27,8 @@ def try_to_merge_ops(ops1, ops2):
             return None
         if len(ops1_common_columns_used.intersection(ops1_columns_produced)) > 0:
             return None
-        if len(ops2_common_columns_used.intersection(ops1_columns_produced)) > 0:
+        if len(ops2_columns_used.intersection(ops1_columns_produced)) > 0:
+            # any later expression reading a column the first step assigns must see the new value
             return None
         if len(ops2_common_columns_used.intersection(ops2_columns_produced)) > 0:
             return None
